@@ -138,20 +138,95 @@ Theorem C07_application_loop_extends_mixin_model : forall fl ordA ordV lets0 m,
 Proof. exact embed_post_project. Qed.
 Print Assumptions C07_application_loop_extends_mixin_model.
 
-(* one parse.Parser value used for a second compilation of the same source: another module (the let keys of the first
-   compilation are still in p.LetTypes, so the transforms under a `let` are not inferred again) - for every setting of the flags *)
-Theorem C07_parser_reuse_refuted : forall fl, exists m ordA ordV, map_order ordA /\ vmap_order ordV /\
-  p_mod (compile_again fl ordA ordV m) <> p_mod (compile_fresh fl ordA ordV m).
-Proof. exact parser_reuse_refuted. Qed.
-Print Assumptions C07_parser_reuse_refuted.
+(* SECOND PASS (fixes/C07-5: Parser.Parse starts with fresh AssignTypes / LetTypes / Messages).  One parse.Parser value used
+   for any number of compilations one after another, whatever it compiled before: at the CURRENT source (reset read off the
+   leading statements of Parse) every call returns what a parser of its own returns - module, typing of the transforms - and
+   leaves in the parser (what GetLets / GetMessages show) what a fresh parser would hold after the last source; for every
+   setting of the other flags, every iteration order.  `sequential`: every call's start is followed at once by its rest. *)
+Theorem C07_reused_parser_is_fresh : forall fl ordA ordV mods ps sched, sequential sched = true ->
+  snd (run_sched current_resets fl ordA ordV mods ps sched) = map (fun g => (g, compile_fresh fl ordA ordV (mods g))) (posts sched) /\
+  fst (run_sched current_resets fl ordA ordV mods ps sched) =
+    match posts sched with [] => ps | g :: gs => parser_after (compile_fresh fl ordA ordV (mods (last gs g))) end.
+Proof. exact current_reused_parser_is_fresh. Qed.
+Print Assumptions C07_reused_parser_is_fresh.
 
-(* ... and the strongest true statement: whatever let keys the parser holds, module and typing are the same provided no
-   `let` of a view has an untyped nested transform under it *)
+(* ... exactly because of the reset *)
+Theorem C07_parser_reuse_iff_reset : forall resets,
+  (forall fl ordA ordV ps m, map_order ordA -> vmap_order ordV ->
+     p_mod (parse resets fl ordA ordV ps m) = p_mod (compile_fresh fl ordA ordV m)) <-> resets = true.
+Proof. exact parser_reuse_iff_reset. Qed.
+Print Assumptions C07_parser_reuse_iff_reset.
+
+(* the source before the repair (the former C07_parser_reuse_refuted): a second compilation of the same source gives another
+   module - the let keys of the first are still in p.LetTypes, so the transforms under a `let` are not inferred again - for
+   every setting of the other flags *)
+Theorem C07_parser_reuse_without_reset_refuted : forall fl, exists m ordA ordV, map_order ordA /\ vmap_order ordV /\
+  p_mod (parse false fl ordA ordV (parser_after (compile_fresh fl ordA ordV m)) m) <> p_mod (compile_fresh fl ordA ordV m).
+Proof. exact parser_reuse_without_reset_refuted. Qed.
+Print Assumptions C07_parser_reuse_without_reset_refuted.
+
+(* one Parser used by several goroutines AT ONCE stays refuted, with or without the reset: start of call 1, start of call 2,
+   rest of call 1, rest of call 2 - the second call sees the let keys of the first (the harness forces this schedule on the
+   real code with a gate reader: known finding parser-shared:views) *)
+Theorem C07_shared_parser_interleaved_refuted : forall resets fl, exists mods sched ordA ordV g st,
+  map_order ordA /\ vmap_order ordV /\ wf_sched [] sched = true /\
+  In (g, st) (snd (run_sched resets fl ordA ordV mods new_parser sched)) /\
+  p_mod st <> p_mod (compile_fresh fl ordA ordV (mods g)).
+Proof. exact shared_parser_interleaved_refuted. Qed.
+Print Assumptions C07_shared_parser_interleaved_refuted.
+
+(* ... and the strongest true statement for EVERY schedule, with or without reset: modules in which no `let` has an untyped
+   nested transform under it come out as with a parser of their own *)
+Theorem C07_shared_parser_partial : forall resets fl ordA ordV mods ps sched, (forall g, plain (mods g)) ->
+  Forall (fun r => p_mod (snd r) = p_mod (compile_fresh fl ordA ordV (mods (fst r))) /\
+                   p_typed (snd r) = p_typed (compile_fresh fl ordA ordV (mods (fst r))))
+         (snd (run_sched resets fl ordA ordV mods ps sched)).
+Proof. exact shared_parser_partial. Qed.
+Print Assumptions C07_shared_parser_partial.
+
+(* with both loops sorted a parser's whole life - every call's result and what the parser holds - is the same under all
+   iteration orders of mod.Apps and of the Views maps *)
+Theorem C07_parser_life_order_independent : forall resets fl mods ps sched ordA1 ordA2 ordV1 ordV2,
+  f_sorted_apps fl = true -> f_sorted_views fl = true ->
+  map_order ordA1 -> map_order ordA2 -> vmap_order ordV1 -> vmap_order ordV2 ->
+  run_sched resets fl ordA1 ordV1 mods ps sched = run_sched resets fl ordA2 ordV2 mods ps sched.
+Proof. exact run_sched_order_independent. Qed.
+Print Assumptions C07_parser_life_order_independent.
+
+(* whatever let keys a parser holds when postProcess starts, module and typing are the same provided no `let` of a view has
+   an untyped nested transform under it *)
 Theorem C07_parser_reuse_partial : forall fl ordA ordV lets1 lets2 m, plain m ->
   p_mod (pp fl ordA ordV lets1 m) = p_mod (pp fl ordA ordV lets2 m) /\
   p_typed (pp fl ordA ordV lets1 m) = p_typed (pp fl ordA ordV lets2 m).
 Proof. exact parser_reuse_partial. Qed.
 Print Assumptions C07_parser_reuse_partial.
+
+(* SECOND PASS: fixTypeRefScope inside the application loop (Infer.fix_ref) - a round of the loop reads mod.Apps[A].Types[B] of
+   ANOTHER application, in the module as the earlier rounds (their mixins) left it, and rewrites a shared reference object.
+   At the current flags the set of rewritten references is the same under every iteration order (an instance of
+   C07_application_loop_order_independent, whose state includes it) ... *)
+Theorem C07_references_order_independent : forall m ordA1 ordA2 ordV1 ordV2 lets0,
+  map_order ordA1 -> map_order ordA2 -> vmap_order ordV1 -> vmap_order ordV2 ->
+  p_local (pp current_flags ordA1 ordV1 lets0 m) = p_local (pp current_flags ordA2 ordV2 lets0 m).
+Proof. exact current_refs_order_independent. Qed.
+Print Assumptions C07_references_order_independent.
+
+(* ... without the sort of the applications it is refuted by a module whose member tables are the SAME under both orders: only
+   the reference differs (application 1 gets type 7 by a mixin; whether `1.7` in application 3 is a full reference depends on
+   whether 1 was visited before 3) *)
+Theorem C07_references_unsorted_apps_refuted : forall sv pa, exists m ordA1 ordA2 ordV, map_order ordA1 /\ map_order ordA2 /\ vmap_order ordV /\
+  let fl := {| f_sorted_apps := false; f_sorted_views := sv; f_per_app := pa |} in
+  map i_mem (p_mod (pp fl ordA1 ordV [] m)) = map i_mem (p_mod (pp fl ordA2 ordV [] m)) /\
+  p_local (pp fl ordA1 ordV [] m) <> p_local (pp fl ordA2 ordV [] m).
+Proof. exact pp_unsorted_apps_refs_refuted. Qed.
+Print Assumptions C07_references_unsorted_apps_refuted.
+
+(* the two map ranges INSIDE one round (over the application's types, over a type's fields) cannot show: every order of
+   visiting one application's references rewrites the same set *)
+Theorem C07_reference_visit_order_irrelevant : forall m c l l' loc, nsorted loc = true -> Permutation l l' ->
+  fold_left (fix_ref m c) l loc = fold_left (fix_ref m c) l' loc.
+Proof. exact fix_refs_visit_order_irrelevant. Qed.
+Print Assumptions C07_reference_visit_order_irrelevant.
 
 (* the retrieved-file table of one compilation: when the index tells apart every two spellings that are claimed, every order
    of the claims (= every completion order of the reads) gives the same table, and every spelling is read *)
@@ -184,7 +259,9 @@ Print Assumptions C07_import_identity_iff.
 Theorem C07_source_shape_round3 :
   (infer_views_order = "sorted" /\ anon_counter_scope = "per-app")%string /\
   map fst parser_field_writers = ["AssignTypes"; "LetTypes"; "Messages"; "allowAbsoluteImport"; "Settings"]%string /\
-  let_guard = "seen:skip;new:infer+record"%string /\
+  let_guard = "seen:message+skip;new:infer+record"%string /\
+  parse_reset_fields = ["AssignTypes"; "LetTypes"; "Messages"]%string /\
+  map fst infer_entry = ["inferExprType"; "inferTypes"; "postProcess"; "finishModule"; "parseSpecs"]%string /\
   forallb (fun s => match s with (_, _, class) => per_call class end) parser_value_sites = true /\
   forallb (fun s => match s with (_, _, class) => per_call class end) listener_sites = true /\
   retrieved_decl = "local of Parse"%string /\
@@ -192,8 +269,19 @@ Theorem C07_source_shape_round3 :
   List.length parse_map_ranges = 22%nat /\
   forallb (fun g => match g with (_, _, class) => String.eqb class "init-only" end) dep_globals = true.
 Proof.
-  exact (conj infer_shape_is (conj (f_equal (map fst) parser_fields_are) (conj let_guard_is (conj (proj1 parser_values_are_per_call)
+  exact (conj infer_shape_is (conj (f_equal (map fst) parser_fields_are) (conj let_guard_is (conj parse_starts_fresh (conj (f_equal (map fst) infer_entry_is) (conj (proj1 parser_values_are_per_call)
         (conj (proj1 listener_values_are_per_call) (conj (proj1 retrieved_table_is)
-        (conj (f_equal (@List.length _) file_index_is) (conj (f_equal (@List.length _) parse_map_ranges_are) (proj1 dep_globals_are_init_only))))))))).
+        (conj (f_equal (@List.length _) file_index_is) (conj (f_equal (@List.length _) parse_map_ranges_are) (proj1 dep_globals_are_init_only))))))))))).
 Qed.
 Print Assumptions C07_source_shape_round3.
+
+(* obligations against the source, second pass: Parse begins by replacing the three accumulators by empty maps and is the only
+   way into view inference (in C07_source_shape_round3); fixTypeRefScope statement by statement and the order of the calls in
+   the application loop *)
+Theorem C07_source_shape_second_pass :
+  List.length fix_ref_shape = 11%nat /\
+  post_loop_calls = ["fixParamTypeRef"; "range app.Mixin2"; "GetApp"; "range srcApp.Types"; "range srcApp.Views"; "range app.Types";
+                     "range attrs"; "fixTypeRefScope"; "inferTypes"; "collectorPubSubCalls"; "renestTypes"]%string /\
+  current_resets = true.
+Proof. exact (conj (f_equal (@List.length _) fix_ref_shape_is) (conj post_loop_calls_are parse_resets_is)). Qed.
+Print Assumptions C07_source_shape_second_pass.
